@@ -1,5 +1,6 @@
 import QmcProofs.Rvb
 import QmcProofs.BondContainer
+import QmcProofs.RvbBalance
 
 /-!
 # C03 — the RVB cluster update preserves the thermal distribution (partial by nature)
@@ -267,5 +268,97 @@ theorem bc_getRandom_zero_weight_witness :
 /-- non-vacuity: a positive draw on the same container -/
 example : (((BC.empty.insert 3 0).1.insert 1 2).1).pick 1 = some 1 := by
   simp [BC.insert, BC.empty, BC.growMap, BC.pick, BC.pickLoop]
+
+/-! ## (i)/(ii) the algebraic core: detailed balance on the segment abstraction
+
+A proposed region cuts imaginary time into segments; on a segment the boundary bonds and their
+weights `(w_before, w_after)` are constant. `k_s` rotatable operators sit in segment `s`, each on
+a boundary bond (assignment `c`); operators completely inside the region change their weight
+from `u_before` to `u_after` (Ising ratio). The move is applied with probability
+`min 1 (Π_s calculate_mult(W_bef_s, W_aft_s, k_s) · Π u_aft/u_bef)` and, if applied, every
+rotatable operator is re-drawn independently ∝ `w_after`. From the resulting configuration the
+same region has the flipped abstraction (`Problem.flip`: before ↔ after). -/
+
+/-- the multiplier the code computes is `Π_s (W_aft/W_bef)^{k_s} · Π (u_aft/u_bef)` -/
+theorem rawMult_eq (P : Problem) (ks : List Nat) (eps : Rat) (h : Admissible P ks eps) :
+    rawMult P ks eps = (powAft P.segs ks / powBef P.segs ks) *
+      (prodR (P.inner.map (·.2)) / prodR (P.inner.map (·.1))) := by
+  unfold rawMult
+  rw [segMult_eq P.segs ks eps h.closeExact (fun sk hsk hk => Or.inl (h.occupied sk hsk hk)), prodR_map_div]
+
+/-- **detailed balance**: `π(c)·P(c→c') = π(c')·P(c'→c)` for every pair of assignments of the
+same shape, for all non-negative weights and all operator counts. -/
+theorem rvb_detailed_balance (P : Problem) (c c' : Assign) (eps : Rat)
+    (hshape : c.map List.length = c'.map List.length)
+    (hadm : Admissible P (c.map List.length) eps) :
+    weight P c * transProb P c c' eps = weight P.flip c' * transProb P.flip c' c eps :=
+  detailed_balance P c c' eps hshape hadm
+
+/-- the `occupied` hypothesis follows from legality of the current configuration: an operator
+sitting on a bond of positive weight makes the segment total positive. -/
+theorem occupied_of_legal (s : Seg) (js : List Nat) (hs : SegNonneg s)
+    (hleg : ∀ j ∈ js, 0 < (s.bonds.getD j (0, 0)).1) (hk : js.length ≠ 0) : s.wBef ≠ 0 := by
+  cases js with
+  | nil => simp at hk
+  | cons j t =>
+    intro h0
+    have := getD_bef_zero hs h0 j
+    have := hleg j (by simp)
+    linarith
+
+/-- an operator completely inside the region whose flipped weight is 0 (a longitudinal-field
+operator, `h ≠ 0`) makes the acceptance probability 0: such a proposal is never applied. -/
+theorem acceptProb_zero_of_inner_zero (P : Problem) (ks : List Nat) (eps : Rat)
+    (h : ∃ p ∈ P.inner, p.2 = 0) : acceptProb P ks eps = 0 := by
+  obtain ⟨p, hp, hp0⟩ := h
+  have : prodR (P.inner.map fun p => p.2 / p.1) = 0 := by
+    generalize P.inner = l at hp
+    induction l with
+    | nil => simp at hp
+    | cons a t ih =>
+      rcases List.mem_cons.1 hp with e | e
+      · subst e; simp [hp0]
+      · simp [ih e]
+  unfold acceptProb rawMult
+  rw [this]; simp [minR]
+
+/-- non-vacuity: two segments (a frustrated pair of boundary bonds with unequal |J|, then a
+single boundary bond), three rotatable operators, one enclosed operator; both sides of the
+balance identity are the same non-zero number. -/
+def exP : Problem :=
+  { segs := [{ bonds := [(2, 0), (0, 4), (1, 1)] }, { bonds := [(4, 0), (0, 2)] }], inner := [(3, 3)] }
+
+theorem exP_admissible : Admissible exP [2, 1] f64eps := by
+  refine ⟨?_, ?_, ?_, ?_⟩
+  · intro s hs
+    simp [exP] at hs
+    rcases hs with rfl | rfl <;> intro p hp <;> simp at hp <;> rcases hp with rfl | rfl | rfl <;> norm_num
+  · intro p hp; simp [exP] at hp; subst hp; norm_num
+  · intro s hs
+    simp [exP] at hs
+    rcases hs with rfl | rfl <;> simp [Seg.wBef, Seg.wAft, absR, f64eps] <;> norm_num
+  · intro sk hsk
+    simp [exP] at hsk
+    rcases hsk with rfl | rfl <;> simp [Seg.wBef] <;> norm_num
+
+example : weight exP [[0, 2], [0]] * transProb exP [[0, 2], [0]] [[1, 1], [1]] f64eps =
+    weight exP.flip [[1, 1], [1]] * transProb exP.flip [[1, 1], [1]] [[0, 2], [0]] f64eps :=
+  rvb_detailed_balance exP _ _ _ rfl exP_admissible
+
+example : weight exP [[0, 2], [0]] * transProb exP [[0, 2], [0]] [[1, 1], [1]] f64eps = 384 / 25 := by
+  simp [exP, weight, transProb, acceptProb, rawMult, redrawProb, calculateMult, prodR, Seg.wBef, Seg.wAft,
+    absR, f64eps, minR]
+  norm_num
+
+/-- **the statement an inversion error breaks**: with the ratio inverted (`W_bef / W_aft`) the
+balance identity fails on this instance. -/
+def acceptInverted (P : Problem) (ks : List Nat) : Rat :=
+  minR 1 (prodR ((P.segs.zip ks).map fun (s, k) => (s.wBef / s.wAft) ^ k) * prodR (P.inner.map fun p => p.2 / p.1))
+
+theorem inverted_ratio_breaks_balance :
+    weight exP [[0, 2], [0]] * (acceptInverted exP [2, 1] * redrawProb exP [[1, 1], [1]]) ≠
+    weight exP.flip [[1, 1], [1]] * (acceptInverted exP.flip [2, 1] * redrawProb exP.flip [[0, 2], [0]]) := by
+  simp [exP, Problem.flip, Seg.flip, weight, acceptInverted, redrawProb, prodR, Seg.wBef, Seg.wAft, minR]
+  norm_num
 
 end Qmc.C03
